@@ -1157,3 +1157,144 @@ def rule_codec_decbuf(ctx, R):
                       "%s formats a 64-bit integer into a %d-byte stack buffer; -9223372036854775808 needs %d bytes (19 digits and the sign), so the write position underflows and the serializer panics on replies below -10^18" % (fn.split("::")[-1], size, need), b.loc(x))
     R.inst("protocol", "functions-scanned-for-decimal-buffers", {"functions": n})
     R.floor("codec_functions_scanned", min(n, 30))
+
+
+# ---- R-CODEC-SHORTTEST ----------------------------------------------------------------------------
+QUIET_TEST = re.compile(r"^core::slice::<impl \[[^\]]*\]>::(starts_with|ends_with|strip_prefix|strip_suffix|get|first|last|split_first|split_last)(::<.*>)?$"
+                        r"|^<\[(A|u8)\] as std::cmp::PartialEq<\[(B|u8)\]>>::(eq|ne)$|^core::slice::cmp::<impl std::cmp::PartialEq<\[.*\]> for \[.*\]>::(eq|ne)$")
+
+
+def _const_len(b, o, depth=0):
+    """length of a constant byte-string operand (through refs / unsize casts), else None"""
+    from facts import const_bytes
+    if op_is_const(o):
+        v = const_bytes(o)
+        if v is not None:
+            return len(v)
+        m = re.search(r"\[u8; (\d+)\]", o.get("ty", ""))
+        if m:
+            return int(m.group(1))
+        return None
+    if depth > 6:
+        return None
+    ds = prov.build_defs(b).get(op_place(o)["l"], ())
+    if len(ds) != 1 or ds[0][0] != "stmt":
+        return None
+    r = ds[0][2]["r"]
+    if r["k"] in ("use", "cast"):
+        return _const_len(b, r["o"], depth + 1)
+    if r["k"] == "ref":
+        return _const_len(b, {"cp": r["p"]}, depth + 1)
+    return None
+
+
+def _slice_from(b, o, depth=0):
+    """(container operand, start operand or None) if o is `container[start..]` / the container itself"""
+    if op_is_const(o) or depth > 6:
+        return None
+    ds = prov.build_defs(b).get(op_place(o)["l"], ())
+    if 1 <= op_place(o)["l"] <= b.nargs and not ds:
+        return (o, None)
+    if len(ds) != 1:
+        return (o, None)
+    kind, bbi, x = ds[0]
+    if kind == "call":
+        f = x["f"] or ""
+        if re.search(r"Index<.*>.*>::index$|impl std::ops::Index<I> for \[T\]>::index$", f) and len(x["a"]) == 2 and not op_is_const(x["a"][1]):
+            rl = op_place(x["a"][1])["l"]
+            if "RangeFrom<" in b.locals[rl]:
+                for k2, b2, d2 in prov.build_defs(b).get(rl, ()):
+                    if k2 == "stmt" and d2["r"]["k"] == "agg" and d2["r"]["o"]:
+                        return (x["a"][0], d2["r"]["o"][0])
+            return None      # two-ended ranges panic when short: R-PANIC's business
+        if re.search(r"Deref(Mut)?>::deref(_mut)?$|::as_slice$|::as_ref$", f) and x["a"]:
+            return _slice_from(b, x["a"][0], depth + 1)
+        return None
+    r = x["r"]
+    if x["l"]["p"]:
+        return None
+    if r["k"] == "use" and not op_is_const(r["o"]):
+        return _slice_from(b, r["o"], depth + 1)
+    if r["k"] == "ref":
+        if r["p"]["p"] and r["p"]["p"] != ["*"]:
+            return ({"cp": r["p"]}, None)
+        return _slice_from(b, {"cp": {"l": r["p"]["l"], "p": []}}, depth + 1)
+    return None
+
+
+def rule_codec_shorttest(ctx, R):
+    """chunking independence, error side: a content test that cannot panic (`starts_with`, `get`,
+    slice `==` on an open-ended sub-slice ...) answers `no` also when the bytes have not arrived
+    yet.  Where that `no` leads to a protocol error, a dominating length test must prove that the
+    bytes examined are present -- otherwise a frame split by a read boundary is refused."""
+    import taint
+    n = 0
+    for fn, b in sorted(ctx.prog.bodies.items()):
+        if not fn.startswith(PARSER) or "::tests::" in fn or b.kind == "Closure":
+            continue
+        errs = set()
+        for x, bb in enumerate(b.bbs):
+            for st in bb["s"]:
+                if st["k"] == "=" and st["r"]["k"] == "agg" and st["r"]["a"].endswith("Result::Err") and st["l"]["l"] == 0:
+                    errs.add(x)
+                if st["k"] == "=" and st["r"]["k"] == "agg" and st["r"]["a"].endswith("FerrousError::Protocol"):
+                    errs.add(x)
+        k = 0
+        for i, t in b.calls():
+            f = t["f"] or ""
+            m = QUIET_TEST.match(f)
+            if not m or not t["a"] or t["t"] < 0:
+                continue
+            sf = _slice_from(b, t["a"][0])
+            if sf is None:
+                continue
+            cont, start = sf
+            root = taint._container_root(b, cont)
+            if root is None:
+                continue
+            kind = re.search(r"::(\w+)(::<.*>)?$", f).group(1)
+            # how many bytes from `start` does the test look at?
+            if kind in ("get",):
+                need_form = None
+                if len(t["a"]) > 1 and (op_is_const(t["a"][1]) or b.locals[op_place(t["a"][1])["l"]] == "usize"):
+                    need_form = taint.linform(b, t["a"][1])
+                extra = 1
+            elif kind in ("first", "last", "split_first", "split_last"):
+                need_form = ({}, 0); extra = 1
+            else:
+                need_form = ({}, 0); extra = _const_len(b, t["a"][1]) if len(t["a"]) > 1 else None
+                if extra is None:
+                    extra = 1
+            if need_form is None:
+                continue
+            # negative edge
+            sw = shared._follow_to_switch(b, t["t"], t["d"]["l"])
+            if not sw:
+                continue
+            ts = dict(sw[1]["ts"])
+            if b.locals[t["d"]["l"]] == "bool":
+                neg = sw[1]["o"] if kind == "ne" else ts.get(0)
+            else:
+                neg = ts[0] if 0 in ts else (sw[1]["o"] if 1 in ts else None)
+            if neg is None:
+                continue
+            reg = cfg.edge_dom_set(b, sw[0], neg)
+            if not (reg & errs):
+                R.trivial(); continue
+            n += 1
+            S = taint.linform(b, start) if start is not None else ({}, 0)
+            verdict = None
+            if S is not None:
+                atoms = dict(S[0])
+                for a_, c_ in need_form[0].items():
+                    atoms[a_] = atoms.get(a_, 0) + c_
+                I = (atoms, S[1] + need_form[1] + extra - 1)
+                verdict = taint.length_guard_verdict_forms(b, i, I, ({("len", root): 1}, 0))
+            R.inst(fn, "quiet-test:%s#%d" % (kind, k), {"function": fn, "at": b.loc(i), "bytes_examined_from_start": extra, "length_guard": verdict})
+            if verdict != "ok":
+                R.finding(fn, "quiet-test:%s#%d:error-on-missing-bytes" % (kind, k),
+                          "%s decides a protocol error from `%s` on an open-ended sub-slice of its input (line %d) although no dominating length test proves that the %d byte(s) it looks at have arrived%s: a frame cut by a read boundary at this point is refused instead of waiting for more data"
+                          % (fn.split("::")[-1], kind, b.bb_line(i), extra, " (the strongest test found is too weak)" if verdict == "short" else ""), b.loc(i))
+            k += 1
+    R.note("non-panicking content tests whose negative outcome reaches a protocol error: %d" % n)
+    R.trivial()
